@@ -132,8 +132,14 @@ def run_feat(ctx, idx, S):
     opened = []
     try:
         n = int(rng.integers(6, 41))
+        big = idx % 16 == 3
+        if big:
+            # a long measurement (scalar features only): more events than any block-wise or
+            # partial read may take at once
+            n = int(rng.integers(10001, 12001))
+            ctx.count("long_measurements")
         data = _gen_data(rng, n)
-        with_mask = bool(rng.random() < 0.7)
+        with_mask = bool(rng.random() < 0.7) and not big
         feats = dict(data)
         shape = None
         if with_mask:
@@ -147,7 +153,7 @@ def run_feat(ctx, idx, S):
         # mapped basin
         nb = int(rng.integers(3, 2 * n))
         bmap = rng.integers(0, n, nb).astype(np.uint64)
-        if rng.random() < 0.5:
+        if rng.random() < 0.5 and not big:
             bmap = np.sort(bmap)
         p2 = tmp / "bmap.rtdc"
         meta2 = copy.deepcopy(meta)
@@ -223,12 +229,13 @@ def run_feat(ctx, idx, S):
             an = str(rng.choice(["h5", "child", "gchild", "basin_mapped", "basin_same"]))
             xax, yax = (K_FEATS if rng.random() < 0.5 else K_FEATS[::-1])
             menu.append((an, str(rng.choice(["scatter", "contour", "downsample"])), xax, yax,
-                         str(rng.choice(["histogram", "gauss", "multivariate", "none"])),
+                         str(rng.choice(["histogram", "gauss", "multivariate", "none"]
+                                        if not big else ["histogram", "none"])),
                          str(rng.choice(["linear", "linear", "log"])),
                          bool(rng.random() < 0.3),
                          int(rng.choice([0, 3, max(1, len(actors[an][0]) // 2)])),
                          bool(rng.random() < 0.5), bool(rng.random() < 0.5)))
-        n_ops = int(rng.integers(60, 151))
+        n_ops = int(rng.integers(60, 151)) if not big else 50
         wrote = set()
         nontrivial = False
         for step in range(n_ops):
@@ -236,11 +243,15 @@ def run_feat(ctx, idx, S):
             if r < 0.60:
                 # ------------------------------------------------ scalar read (+ write)
                 an = str(rng.choice(list(actors)))
+                if big and rng.random() < 0.5:
+                    an = "basin_mapped"
                 ds, sel, aliases = actors[an]
                 f = str(rng.choice(W_FEATS))
                 am = models[(an, f)]
                 ne = len(am.expected)
                 form = str(rng.choice(READ_FORMS))
+                if big and rng.random() < 0.4:
+                    form = "basic_slice"
                 index = _gen_index(rng, form, ne)
                 S.spec = {"step": step, "actor": an, "feature": f, "form": form,
                           "index": _index_desc(index)}
